@@ -306,6 +306,9 @@ def correspondence(ctx):
     # the process-wide ε / δ caches: every tensor asked twice, in two orders (also with swapped arguments), entry by entry
     from props import c05
     c05.eps_delta(ctx, prefix="C12")
+    # item assignment on one epsilon / delta object must not reach the process-wide cache; a diagram copy is independent
+    c05.eps_instances_independent(ctx, prefix="C12")
+    c05.eps_delta(ctx, prefix="C12")
 
 
 def replay(ctx, rec):
